@@ -17,8 +17,9 @@ What is proved here, for all inputs:
     source rows, empty value where the side is unmatched — also for the non-monotone maps of joins with duplicate keys
     on both sides (C04 as generalised for NC02a), every chunk size;
   * `hints_irrelevant_maps` — the selections behind the maps do not depend on the unique hints.
-`merge_correct_partial` assembles these for the whole frame on the path where both sides have a map; the full
-`merge_correct` statement is kept in a comment below with what is missing.
+`merge_correct_partial` puts these together per destination column of the ordered path. The full statements
+(`merge_correct`, `hints_irrelevant`, `never_raises_on_truthful_hints`) are kept in a comment at the end of this file
+together with exactly what is missing.
 -/
 namespace Exetera.Props.C02
 
@@ -275,5 +276,87 @@ example : mapColumn "right" (.flat (.int 0) [.int 500, .int 501, .int 502])
 example : ColOK (.indexed [0, 1, 3] [97, 98, 98]) 2 4 :=
   ⟨rfl, fun ix vs h => by cases h; exact ⟨by unfold IndexedOK; decide, by decide⟩⟩
 example : Truthful true [1, 3, 4] ∧ Truthful false [1, 1] := ⟨fun _ => by decide, fun h => by cases h⟩
+
+/-! ## the ordered path, column by column -/
+
+/-- **`merge_correct`, partial: the ordered path column by column.** For `how ∈ {left, right, inner}`, every truthful
+    unique-hint combination, ordered key columns, every chunk size ≥ 1 and a marker not smaller than both frame lengths
+    (the sentinels of `sentinel_choice` for frames below 2^31-1 resp. 2^62 rows): the dispatched generator succeeds, and
+    EVERY well-formed column of the left (right) frame is turned, without error, into the rows `leftSel` (`rightSel`) of
+    the relational join — the same list of result rows for all columns of both sides, so the destination columns have
+    equal length and row `r` of the destination is (left row | empty, right row | empty) of the `r`-th relational-join
+    row; a side that has no map field is copied unchanged.
+    Missing for the full statement: see the comment at the end of the file (hypotheses `hselL`/`hselR` are facts about
+    `Spec.leftJoin`/`innerJoin` that are not proved here). -/
+theorem merge_correct_partial (how : String) (hhow : how = "left" ∨ how = "right" ∨ how = "inner") (lu ru : Bool)
+    (lk rk : List Int) (hl : Sorted lk) (hr : Sorted rk) (hlu : Truthful lu lk) (hru : Truthful ru rk)
+    (cs vf : Nat) (hcs : 1 ≤ cs) (inv : Int) (hinvL : (lk.length : Int) ≤ inv) (hinvR : (rk.length : Int) ≤ inv)
+    (fuel : Nat) (hfuel : lk.length + rk.length + 2 * (relJoin how lk rk).length + 1 ≤ fuel)
+    (hselL : ∀ i, some i ∈ leftSel how lk rk → i < lk.length)
+    (hselR : ∀ j, some j ∈ rightSel how lk rk → j < rk.length) :
+    ∃ p o, plan how lu ru = .ok p ∧
+      Join.streamed p.variant fuel cs inv (if p.aLeft then lk else rk) (if p.aLeft then rk else lk) = .ok o ∧
+      (∀ col, ColOK col lk.length (cs * vf) →
+        ∃ out, mapColumn "left" col (leftMapOf p o) inv cs vf = .ok out ∧
+          ((leftMapOf p o).isSome → selectCol col (leftSel how lk rk) = some out) ∧
+          (leftMapOf p o = none → out = col)) ∧
+      (∀ col, ColOK col rk.length (cs * vf) →
+        ∃ out, mapColumn "right" col (rightMapOf p o) inv cs vf = .ok out ∧
+          ((rightMapOf p o).isSome → selectCol col (rightSel how lk rk) = some out) ∧
+          (rightMapOf p o = none → out = col)) := by
+  obtain ⟨p, o, h1, h2, h3, h4⟩ := ordered_maps_correct how hhow lu ru lk rk hl hr hlu hru cs (by omega) inv fuel hfuel
+  refine ⟨p, o, h1, h2, ?_, ?_⟩
+  · intro col hcol
+    cases hm : leftMapOf p o with
+    | none => exact ⟨col, ordered_column_copied "left" (Or.inl rfl) col inv cs vf, ⟨fun h => by simp at h, fun _ => rfl⟩⟩
+    | some m =>
+      rw [h3 m hm]
+      obtain ⟨out, g1, g2⟩ := ordered_column_correct "left" (Or.inl rfl) col lk.length (leftSel how lk rk) inv cs vf hcs
+        hcol hselL hinvL
+      exact ⟨out, g1, ⟨fun _ => g2, fun h => by simp at h⟩⟩
+  · intro col hcol
+    cases hm : rightMapOf p o with
+    | none => exact ⟨col, ordered_column_copied "right" (Or.inr rfl) col inv cs vf, ⟨fun h => by simp at h, fun _ => rfl⟩⟩
+    | some m =>
+      rw [h4 m hm]
+      obtain ⟨out, g1, g2⟩ := ordered_column_correct "right" (Or.inr rfl) col rk.length (rightSel how lk rk) inv cs vf hcs
+        hcol hselR hinvR
+      exact ⟨out, g1, ⟨fun _ => g2, fun h => by simp at h⟩⟩
+
+/-- non-vacuity of `hselL` / `hselR` on a join with duplicates on both sides and unmatched rows -/
+example : (leftSel "left" [0, 2, 2] [2, 2, 5]).all (fun o => match o with | some i => decide (i < 3) | none => true) = true ∧
+    (rightSel "left" [0, 2, 2] [2, 2, 5]).all (fun o => match o with | some j => decide (j < 3) | none => true) = true := by
+  decide
+
+/-!
+## The full statements, and what is missing
+
+```
+theorem merge_correct (pandas) (i : Input) (cs vf fuel) :
+    how ∈ {left,right,inner,outer} → truthful hints → frames well formed (every mapped field exists, all of a side's columns
+    as long as its key column, indexed columns IndexedOK with entries ≤ cs*vf, destination names pairwise distinct) →
+    pandas i.how i.lk i.rk = .ok pairs ∧ pairs.Perm (relJoin i.how i.lk i.rk) →
+    ∃ dest rows, merge pandas i cs vf fuel = .ok dest ∧ rows.Perm (relJoin i.how i.lk i.rk) ∧
+      (∀ left field f, look dest (destName f) = selectCol (left f) (rows.map (·.1))) ∧ (same for the right fields) ∧
+      all columns of dest have length rows.length ∧ (isOrdered i → the keys of rows are non-decreasing)
+theorem hints_irrelevant : the `rows` of a merge with truthful hints is a permutation of the `rows` without hints
+theorem never_raises_on_truthful_hints : under the same hypotheses `merge … ≠ .error _`
+```
+Proved above: the dispatch (`dispatch_table`, `call_sites`, `suffix_rule`, `sentinel_choice`), the maps
+(`ordered_maps_correct`, `hints_irrelevant_maps`), every column on both paths (`ordered_column_correct`,
+`ordered_column_copied`, `unordered_column_correct`) and their composition for the ordered path (`merge_correct_partial`).
+Missing (all about the assembly, none about the streamed code):
+  1. `addAll` (sequential `create_like` of the destination fields) succeeds and yields exactly the listed columns when the
+     destination names are pairwise distinct — a list induction that was not written;
+  2. `validate`/`merge` front end: that well-formed frames pass the validators and `leftLen = lk.length`;
+  3. the spec facts `hselL`/`hselR` (row numbers of `leftJoin`/`innerJoin` are in range) and, for a side that is copied
+     unchanged because it is unique and drives the join, `leftSel = [some 0, …, some (n-1)]`;
+  4. the key order on the ordered path (the driving side's selection is non-decreasing);
+  5. the unordered path as a whole frame: `unordered_column_correct` applied to `pairs.map (·.1)` / `(·.2)` plus the
+     `valid_l` / `valid_r` columns, under the recorded assumption that `pandas.merge` returns a permutation of `relJoin`
+     (the harness checks that assumption on every case it uses pandas for).
+The correspondence run compares the WHOLE destination frame of the real `DataFrame.merge` with the model on every case,
+and the real code with the relational-join oracle, so 1–5 are covered by differential execution, not by a theorem.
+-/
 
 end Exetera.Props.C02
